@@ -57,6 +57,8 @@ type w1Config struct {
 	receiveBudget bool
 	keys          int
 	layouts       []w1Layout // tag layouts of the shared keys; [0] is the plain one
+	layoutMulti   bool       // several layouts of one metric may travel in the same second of an agent
+	repeatEvents  bool       // a key may be hit by two events of an agent in one second, at different positions
 	faulty        bool
 	faults        w1FaultRates
 	partitions    bool
@@ -279,6 +281,11 @@ func w1Run(t *testing.T, r *verifsim.Run) {
 	for _, idx := range layoutIdx {
 		cfg.layouts = append(cfg.layouts, w1LayoutCatalogue[idx])
 	}
+	// one layout per (agent, second, metric): the rows of a request are ordered by metric, so which key
+	// follows which is a function of the choice vector. Several layouts per metric: more keys per
+	// request, but their order inside a metric is the agent's map iteration order.
+	cfg.layoutMulti = c.Intn(2, "layouts_per_metric") == 1
+	cfg.repeatEvents = c.Intn(2, "repeat_events") == 1
 	cfg.faultsStop = cfg.runLen
 	if cfg.faulty {
 		rate := func(label string) int {
@@ -308,7 +315,7 @@ func w1Run(t *testing.T, r *verifsim.Run) {
 	r.Config["agents"], r.Config["run_len_s"], r.Config["historic_window_s"] = cfg.agents, cfg.runLen, cfg.window
 	r.Config["short_window"], r.Config["inserters"], r.Config["save_immediately"] = cfg.shortWindow, cfg.inserters, cfg.saveImm
 	r.Config["receive_budget"], r.Config["keys"], r.Config["faulty"] = cfg.receiveBudget, cfg.keys, cfg.faulty
-	r.Config["key_layouts"] = fmt.Sprint(layoutIdx)
+	r.Config["key_layouts"], r.Config["layouts_per_metric_many"], r.Config["repeat_events"] = fmt.Sprint(layoutIdx), cfg.layoutMulti, cfg.repeatEvents
 	if cfg.faulty {
 		r.Config["fault_rates_permille"] = fmt.Sprintf("%+v", cfg.faults)
 		r.Config["partitions"], r.Config["replica_crashes"], r.Config["agent_crashes"], r.Config["faults_stop_s"] = cfg.partitions, cfg.repCrashes, cfg.agentCrashes, cfg.faultsStop
@@ -584,16 +591,28 @@ func (w *w1World) applySecond(inst *w1Inst, T uint32) {
 	w.noteMarkerGen(a, T, inst.gen)
 	// which (key kind, layout) combinations this agent reports in this second, and in which order the
 	// events arrive: both keyed by (agent, second), so agents differ from each other and seconds differ
-	type combo struct{ k, l int }
+	type combo struct{ k, l, e int } // key kind, layout, event number
 	var combos []combo
+	add := func(k, l int) {
+		combos = append(combos, combo{k, l, 0})
+		if w.cfg.repeatEvents && w.c.Keyed(2, 7001, uint64(a), uint64(T), uint64(k), 101, uint64(l)) == 1 {
+			combos = append(combos, combo{k, l, 1})
+		}
+	}
 	for k := 0; k < w.cfg.keys; k++ {
+		if !w.cfg.layoutMulti {
+			if w.c.Keyed(4, 7001, uint64(a), uint64(T), uint64(k), 100, 0) != 0 { // a quarter stays silent
+				add(k, int(w.c.Keyed(uint64(len(w.cfg.layouts)), 7003, uint64(a), uint64(T), uint64(k))))
+			}
+			continue
+		}
 		for l := range w.cfg.layouts {
 			silent := w.c.Keyed(4, 7001, uint64(a), uint64(T), uint64(k), 100, uint64(l)) == 0 // a quarter stays silent
 			if l != 0 {
 				silent = w.c.Keyed(2, 7001, uint64(a), uint64(T), uint64(k), 100, uint64(l)) == 0 // extra layouts: half
 			}
 			if !silent {
-				combos = append(combos, combo{k, l})
+				add(k, l)
 			}
 		}
 	}
@@ -604,7 +623,7 @@ func (w *w1World) applySecond(inst *w1Inst, T uint32) {
 	for _, cb := range combos {
 		k, layout := cb.k, w.cfg.layouts[cb.l]
 		v := func(i int, n uint64) uint64 {
-			return w.c.Keyed(n, 7001, uint64(a), uint64(T), uint64(k), uint64(i), uint64(cb.l))
+			return w.c.Keyed(n, 7001, uint64(a), uint64(T), uint64(k), uint64(i), uint64(cb.l), uint64(cb.e))
 		}
 		switch k {
 		case 0:
